@@ -133,7 +133,7 @@ func init() {
 					case "c.lost":
 						lostCalls++
 					case "time.NewTicker":
-						if len(x.Args) == 1 && exprStr(f.fset, x.Args[0]) == "time.Second" {
+						if v, ok := intLit(x.Args[0]); len(x.Args) == 1 && ok && v == 1e9 {
 							add("clientSendTickMs", 1000, true)
 							tick = true
 						}
@@ -151,5 +151,55 @@ func init() {
 			add("clientSendConnDoneRecvs", int64(doneRecvs), true)
 			add("clientSendLostChecks", int64(lostCalls), true)
 		}
+	})
+}
+
+// C11, close notification (Model/AdapterPush.lean): in AdapterProxy.onPush the test for reconnectMsg
+// must come before any `… == nil { return }` guard (a client without push callback still has to
+// honour the server's close notification).
+func init() {
+	const rel = "tars/adapter.go"
+	mirrored[rel] = append(mirrored[rel], "AdapterProxy.onPush", "AdapterProxy.Recv", "AdapterProxy.Send")
+	extras = append(extras, func(add func(string, int64, bool)) {
+		f := parse(rel)
+		if f == nil {
+			return
+		}
+		fd := f.funcDecl("AdapterProxy.onPush")
+		if fd == nil {
+			return
+		}
+		reconnectPos, guardPos := token.NoPos, token.NoPos
+		ast.Inspect(fd.Body, func(n ast.Node) bool {
+			ifs, ok := n.(*ast.IfStmt)
+			if !ok {
+				return true
+			}
+			cond := exprStr(f.fset, ifs.Cond)
+			if strings.Contains(cond, "reconnectMsg") && reconnectPos == token.NoPos {
+				reconnectPos = ifs.Pos()
+			}
+			if strings.Contains(cond, "== nil") && guardPos == token.NoPos {
+				returns := false
+				for _, st := range ifs.Body.List {
+					if _, ok := st.(*ast.ReturnStmt); ok {
+						returns = true
+					}
+				}
+				if returns {
+					guardPos = ifs.Pos()
+				}
+			}
+			return true
+		})
+		if reconnectPos == token.NoPos {
+			anchorLost("%s: onPush: no `if … reconnectMsg` test found", rel)
+			return
+		}
+		first := int64(1)
+		if guardPos != token.NoPos && guardPos < reconnectPos {
+			first = 0
+		}
+		add("adapterOnPushReconnectFirst", first, true)
 	})
 }
